@@ -82,7 +82,7 @@ func (c *Ctx) registry(rule string) *registryModel {
 				}
 			case *ssa.Store:
 				if fa, ok := x.Addr.(*ssa.FieldAddr); ok {
-					if s, ok := constString(x.Val); ok && core.StructField(fa.X.Type(), fa.Field).Name() == "jsonName" {
+					if s, ok := constString(x.Val); ok && core.CanonFieldOf(fa.X.Type(), fa.Field) == "jsonName" {
 						rm.jsonConsts[s] = true
 					}
 				}
@@ -105,10 +105,10 @@ func (c *Ctx) registry(rule string) *registryModel {
 func isFieldNameValue(v ssa.Value) bool {
 	switch x := v.(type) {
 	case *ssa.Field:
-		return core.StructField(x.X.Type(), x.Field).Name() == "Name" && isNamed(x.X.Type(), "reflect", "StructField")
+		return core.CanonFieldOf(x.X.Type(), x.Field) == "Name" && isNamed(x.X.Type(), "reflect", "StructField")
 	case *ssa.UnOp:
 		if fa, ok := x.X.(*ssa.FieldAddr); ok {
-			return core.StructField(fa.X.Type(), fa.Field).Name() == "Name" && isNamed(fa.X.Type(), "reflect", "StructField")
+			return core.CanonFieldOf(fa.X.Type(), fa.Field) == "Name" && isNamed(fa.X.Type(), "reflect", "StructField")
 		}
 	}
 	return false
